@@ -1,7 +1,10 @@
 """C07 - every awaited runtime future resolves exactly once with its own result (bounded)."""
 from __future__ import annotations
 
+from typing import Any
+
 from harness.rt_entry import ob, obs_sharded, sim  # noqa: F401
+from vf import rt
 
 PROPERTY = 'C07'
 LEVEL = 'model_checking'
@@ -18,6 +21,7 @@ ENCODED = [
     'send_up_or_schedule_tasks/handle_result_from_below/update_upstream_idle_workers/handle_update',
     'bqskit.compiler.compiler:Compiler.submit/result/_send/_send_recv/_recv_handle_log_error',
     'bqskit.compiler.task:CompilationTask.run', 'bqskit.compiler.workflow:Workflow.run',
+    'bqskit.runtime.base:ServerBase.spawn_workers (over fake Process/Listener; symbolic id range and connection order)',
 ]
 ASSUMPTIONS = [
     'nodes are built with __new__ (constructors open sockets / spawn processes); channels are in-memory FIFO pairs; '
@@ -36,14 +40,97 @@ BOUNDS = {
     'thorough': 'adds flat3, mgr1x2, mgr2x2, trees map3/nested_map, <=3 deviations on the small scenarios, line level '
                 'with <=2 deviations',
 }
-OUTSIDE = ('start-up and shut-down wiring (spawn_workers / connect_to_managers / the id ranges handed to managers: the '
-           'simulator wires the employee tables itself - a seeded change there, C07b, is not caught); '
+OUTSIDE = ('start-up wiring other than ServerBase.spawn_workers (connect_to_managers, the id ranges a detached server '
+           'computes for its managers, process spawning and the Listener/Client hand-shake: the simulator wires those itself); '
            'more than 3 workers per node, depth > 2, pre-emption inside a bytecode, COMMUNICATE and LOG traffic, '
            'schedules further than K deviations from the baseline')
 
 
+# ---- start-up wiring (E1): the real ServerBase.spawn_workers over fake Process / Listener / selector ----------------
+# Result routing (get_employee_responsible_for / send_result_down) indexes `employees` by
+# (worker_id - lower_id_bound) // step_size, so after spawn_workers employee i must be worker lower_id_bound + i whatever
+# the node's id range and whatever order the workers connect in.
+@rt.natively
+def _startup_body(lo: int, k: int, nw: int, p0: int, p1: int, p2: int, p3: int) -> bool:
+    import bqskit.runtime.base as B
+    from bqskit.runtime.message import RuntimeMessage
+    rt.begin()
+    bases = [0, 2 ** 29, 357913941, 2 ** 30]          # id-range starts a detached server hands to 1-3 managers
+    lower = bases[rt.P(lo, 0, len(bases) - 1)] + rt.P(k, 0, 4)
+    n = rt.P(nw, 1, 4)
+    rest = list(range(n))
+    order = [rest.pop(rt.P(x, 0, len(rest) - 1)) for x in [p0, p1, p2, p3][:n]]     # connection order
+
+    class FakeProc:
+        def __init__(self, target: Any = None, args: tuple = (), kwargs: Any = None) -> None:
+            self.args, self.daemon = args, False
+
+        def start(self) -> None:
+            pass
+
+    class FakeConn:
+        def __init__(self, wid: int) -> None:
+            self.wid = wid
+
+        def recv(self) -> Any:
+            return (RuntimeMessage.STARTED, self.wid)
+
+    class FakeListener:
+        def __init__(self, *a: Any, **kw: Any) -> None:
+            self.i = 0
+
+        def accept(self) -> Any:
+            self.i += 1
+            return FakeConn(lower + order[self.i - 1])
+
+        def close(self) -> None:
+            pass
+
+    class FakeSel:
+        def register(self, *a: Any) -> None:
+            pass
+
+    def run() -> 'str | None':
+        node = object.__new__(_Node)
+        node.lower_id_bound, node.upper_id_bound = lower, lower + 2 ** 20
+        node.employees, node.conn_to_employee_dict, node.sel = [], {}, FakeSel()
+        saved = (B.Process, B.Listener)
+        B.Process, B.Listener = FakeProc, FakeListener
+        try:
+            B.ServerBase.spawn_workers(node, n, 0)
+        finally:
+            B.Process, B.Listener = saved
+        if len(node.employees) != n:
+            return 'startup:employee-count'
+        for i in range(n):
+            wid = lower + i
+            if node.employees[i].id != wid or node.employees[i].conn.wid != wid:
+                rt.log('employees', [e.id for e in node.employees], 'lower bound', lower, 'connection order', order)
+                return 'startup:employee-table-not-in-id-order'
+            if not B.ServerBase.is_my_worker(node, wid) or B.ServerBase.get_employee_responsible_for(node, wid).conn.wid != wid:
+                return 'startup:worker-id-routed-to-another-worker'
+        return None
+    fp = rt.nt(run)
+    rt.reach()
+    if rt.CONCRETE:
+        rt.log('lower id bound', lower, 'workers', n, 'connection order', order)
+    return True if fp is None else rt.fail(fp)
+
+
+class _Node:
+    """Bare attribute holder standing in for a ServerBase (its constructor opens sockets)."""
+    step_size = 1
+
+
+def startup(lo: int, k: int, nw: int, p0: int, p1: int, p2: int, p3: int) -> bool:
+    """
+    post: _
+    """
+    return _startup_body(lo, k, nw, p0, p1, p2, p3)
+
+
 def obligations(tier: str) -> list[dict]:
-    obs = []
+    obs = [{'name': 'startup/spawn_workers/id-ranges-x-connection-orders', 'func': 'startup', 'shard': {}, 'timeout': 200}]
     if tier == 'quick':
         for sh in ('submit', 'map2', 'next3', 'nested', 'two_rev'):
             obs.append(ob('msg/flat1/%s/K2' % sh, 'flat1', [sh], 'tables', 2, 200))
